@@ -48,6 +48,15 @@ void operator delete(void* p, std::align_val_t) noexcept { free(p); }
 
 static inline std::uint64_t bswap(std::uint64_t x) { return __builtin_bswap64(x); }
 
+// single-word publication (C19): count the stores to a permutation word during one operation
+static int g_perm_stores = 0;
+#ifdef YAKUSHIMA_VERIF
+static void cnt_post(int kind, int obj, const volatile void*, std::uint64_t, int) {
+    if (kind == yakushima::verif::k_store && obj == yakushima::verif::o_perm) ++g_perm_stores;
+}
+static yakushima::verif::hooks g_cnt_hooks{nullptr, cnt_post, nullptr};
+#endif
+
 // node_version64_body <-> raw word
 static std::uint64_t raw(node_version64_body b) {
     std::uint64_t r;
@@ -76,6 +85,9 @@ int main(int argc, char** argv) {
     if (argc < 2) return 2;
     FILE* f = std::fopen(argv[1], "r");
     if (!f) return 2;
+#ifdef YAKUSHIMA_VERIF
+    yakushima::verif::get() = &g_cnt_hooks;
+#endif
     char line[1 << 16];
     while (std::fgets(line, sizeof line, f)) {
         std::istringstream in(line);
@@ -92,13 +104,15 @@ int main(int argc, char** argv) {
             if (op == "insert") {
                 auto w = rd(), r = rd(), p = rd();
                 permutation pm{w};
+                g_perm_stores = 0;
                 pm.insert_rank(r, p);
-                out << hex(pm.get_body());
+                out << hex(pm.get_body()) << " st=" << g_perm_stores;
             } else if (op == "delete") {
                 auto w = rd(), r = rd();
                 permutation pm{w};
+                g_perm_stores = 0;
                 pm.delete_rank(r);
-                out << hex(pm.get_body());
+                out << hex(pm.get_body()) << " st=" << g_perm_stores;
             } else if (op == "empty") {
                 auto w = rd();
                 permutation pm{w};
@@ -106,8 +120,9 @@ int main(int argc, char** argv) {
             } else if (op == "split") {
                 auto n = rd();
                 permutation pm{};
+                g_perm_stores = 0;
                 pm.split_dest(n);
-                out << hex(pm.get_body());
+                out << hex(pm.get_body()) << " st=" << g_perm_stores;
             } else if (op == "index") {
                 auto w = rd(), r = rd();
                 permutation pm{w};
